@@ -450,6 +450,35 @@ func configs(tier string, seed int64) []cfg {
 			}
 		}
 	}
+	// 5c: opcodes that bring helper modules, stacks or per-family declarations — two of them in one
+	// processor, one of them in two processors, two parameterisations of one family
+	helperSets := [][]string{{"rsets3", "rsets13"}, {"rsets5", "rsets8", "rsets13"}, {"addfps16f8", "multfps16f8"}, {"addfps16f8", "addfps8f4"}, {"multfps16f8", "divfps16f8", "addfps16f8"},
+		{"push4t", "pull4t", "push16uu", "pull16uu"}, {"push4t", "push16uu"}, {"callo8s", "ret8s", "callo4st", "ret4st"}, {"callo8s", "calla8s", "ret8s", "push4t", "pull4t"},
+		{"addf", "multf"}, {"addf", "divf"}, {"multf", "divf"}, {"addf", "multf", "divf", "jgt0f"}, {"addf16", "multf16", "divf16"}, {"addp", "multp"}, {"addp", "divp"}, {"multp", "divp", "addp"},
+		{"addlqs8t1", "multlqs8t1"}, {"addfps16f8", "addp", "rsets5"}}
+	for hi, hs := range helperSets {
+		ok := true
+		for _, o := range hs {
+			if gen.OpByName(o) == nil {
+				ok = false
+			}
+		}
+		if !ok {
+			continue
+		}
+		rs := uint8(8)
+		switch {
+		case strings.HasPrefix(hs[0], "addf") && !strings.HasPrefix(hs[0], "addf16") && !strings.HasPrefix(hs[0], "addfps") || hs[0] == "multf":
+			rs = 32
+		case strings.Contains(hs[0], "f16") || strings.Contains(hs[0], "fps16"):
+			rs = 16
+		}
+		for procs := 1; procs <= 2; procs++ {
+			c := base(fmt.Sprintf("helpers%d×%d:%s", hi, procs, strings.Join(hs, "+")), rs, append(append([]string{}, hs...), "j", "rset"))
+			c.Procs, c.L = procs, 3
+			cs = append(cs, c)
+		}
+	}
 	// 6: commented output
 	cc := base("commented", 8, []string{"add", "rset", "j", "i2rw", "r2owa"})
 	cc.Commented = true
